@@ -32,6 +32,9 @@ Steps, applied to every function of the analysed packages:
  C7  small identities: `a < b < c` = `a < b and b < c` (side-effect-free b); `.get(k, None)` = `.get(k)`; `isinstance(x, A) or
      isinstance(x, B)` = `isinstance(x, (A, B))`; `x = x + e` = `x += e`;
      `list(d.keys())` = `list(d)`; annotated assignments to plain names
+ C9  a search / dispatch loop over a literal tuple — `for x in (a, b, ..):` whose body can `return` and has no
+     break/continue/else — is the sequence of its iterations (with the loop variables replaced);
+     `f(**{"k": v})` = `f(k=v)`
  C8  helpers that do not exist on the reference tree (see alpha.py: the
      reference lists every function of the confirmed tree) and are called from
      the same file are inlined at their call sites; module-level constants that
@@ -180,6 +183,11 @@ class Canon:
                 out.append(st)
                 if getattr(st, "_absorbed", False):
                     break
+            elif isinstance(st, ast.For) and self._unrollable(st):
+                # C9: a search/dispatch loop over a literal tuple is the sequence of its iterations
+                unrolled = self._unroll(st)
+                body = body[: i] + unrolled + body[i + 1 :]
+                continue
             elif isinstance(st, (ast.For, ast.AsyncFor, ast.While)):
                 st.body = self.block(st.body, "loop")
                 st.orelse = self.block(st.orelse, None) if st.orelse else []
@@ -207,6 +215,47 @@ class Canon:
         while out and ((tail == "fn" and isinstance(out[-1], ast.Return) and out[-1].value is None) or (tail == "loop" and isinstance(out[-1], ast.Continue))):
             out.pop()
         out = [s for s in out if not isinstance(s, ast.Pass)] or ([_loc(ast.Pass(), body[0])] if body else [])
+        return out
+
+    def _unrollable(self, st: ast.For) -> bool:
+        if st.orelse or not isinstance(st.iter, (ast.Tuple, ast.List)) or not (1 <= len(st.iter.elts) <= 16):
+            return False
+        tg = st.target
+        names = [tg] if isinstance(tg, ast.Name) else (list(tg.elts) if isinstance(tg, (ast.Tuple, ast.List)) else None)
+        if names is None or not all(isinstance(n, ast.Name) for n in names):
+            return False
+        if isinstance(tg, (ast.Tuple, ast.List)) and not all(isinstance(e, (ast.Tuple, ast.List)) and len(e.elts) == len(names) for e in st.iter.elts):
+            return False
+        has_return = False
+        for n in ast.walk(ast.Module(st.body, [])):
+            if isinstance(n, (ast.Break, ast.Continue, ast.FunctionDef, ast.Lambda, ast.Yield, ast.YieldFrom)):
+                return False
+            if isinstance(n, ast.Return):
+                has_return = True
+        if not has_return:
+            return False  # only search / dispatch loops (those that can leave the function from inside)
+        # the loop variables are not used after the loop is not required: they keep their last value either way
+        stored = {n.id for x in st.body for n in ast.walk(x) if isinstance(n, ast.Name) and isinstance(n.ctx, ast.Store)}
+        return not (stored & {n.id for n in names})
+
+    def _unroll(self, st: ast.For) -> List[ast.stmt]:
+        tg = st.target
+        names = [tg.id] if isinstance(tg, ast.Name) else [n.id for n in tg.elts]
+        out: List[ast.stmt] = []
+        for e in st.iter.elts:
+            vals = [e] if isinstance(tg, ast.Name) else list(e.elts)
+            subst = {}
+            pre = []
+            for nm, v in zip(names, vals):
+                if _alias_expr(v):
+                    subst[nm] = v
+                else:
+                    pre.append(_loc(ast.Assign([ast.Name(nm, ast.Store())], copy.deepcopy(v)), st))
+            out.extend(pre)
+            for b in st.body:
+                out.append(_ParamSubst(subst).visit(copy.deepcopy(b)))
+        for s_ in out:
+            ast.fix_missing_locations(s_)
         return out
 
     def _cls_member(self, m):
@@ -274,9 +323,44 @@ class _ExprNorm(ast.NodeTransformer):
         self.generic_visit(node)
         return node
 
+    def _flatten_gens(self, node):
+        # f(x) for x in [y for y in it if c]  ==  f(x) for x in it if c   (inner element is the inner variable itself)
+        for g in node.generators:
+            it = g.iter
+            if isinstance(it, (ast.ListComp, ast.GeneratorExp)) and len(it.generators) == 1 and isinstance(it.elt, ast.Name) and isinstance(it.generators[0].target, ast.Name) and it.elt.id == it.generators[0].target.id and isinstance(g.target, ast.Name) and not it.generators[0].is_async:
+                inner = it.generators[0]
+                ren = _ParamSubst({inner.target.id: ast.Name(g.target.id, ast.Load())})
+                g.iter = inner.iter
+                g.ifs = [ren.visit(copy.deepcopy(c)) for c in inner.ifs] + list(g.ifs)
+        return node
+
+    def visit_ListComp(self, node):
+        self.generic_visit(node)
+        return self._flatten_gens(node)
+
+    def visit_DictComp(self, node):
+        self.generic_visit(node)
+        return self._flatten_gens(node)
+
+    def visit_GeneratorExp(self, node):
+        self.generic_visit(node)
+        return self._flatten_gens(node)
+
+    def visit_SetComp(self, node):
+        self.generic_visit(node)
+        return self._flatten_gens(node)
+
     def visit_Call(self, node: ast.Call):
         self.generic_visit(node)
         f = node.func
+        # f(**{"k": v}) == f(k=v) for identifier keys
+        kws = []
+        for k in node.keywords:
+            if k.arg is None and isinstance(k.value, ast.Dict) and k.value.keys and all(isinstance(x, ast.Constant) and isinstance(x.value, str) and x.value.isidentifier() for x in k.value.keys):
+                kws.extend(ast.keyword(x.value, v) for x, v in zip(k.value.keys, k.value.values))
+            else:
+                kws.append(k)
+        node.keywords = kws
         # .get(k, None) == .get(k)
         if isinstance(f, ast.Attribute) and f.attr == "get" and len(node.args) == 2 and isinstance(node.args[1], ast.Constant) and node.args[1].value is None and not node.keywords:
             node.args = node.args[:1]
